@@ -62,6 +62,14 @@ inductive Colour where
   | pattern (name : String) (xs : List Rat)      -- only the specification produces these
 deriving DecidableEq, Repr
 
+/-- `pdfcolor.PDFColorSpace`: family name and number of components. -/
+structure CSpace where
+  name : String
+  n : Nat
+deriving DecidableEq, Repr
+
+def CSpace.pattern (cs : CSpace) : Bool := cs.name == "Pattern"
+
 inductive Kind where | line | rect | curve
 deriving DecidableEq, Repr
 
@@ -105,7 +113,7 @@ structure IState where
   gstack : List (Matrix × GState)
   curpath : List PSeg
   argstack : List Operand               -- top of the stack is the END of the list, as in Python
-  csmap : List (String × Nat)           -- colour-space name -> ncomponents
+  csmap : List (String × CSpace)        -- `self.csmap`: resource / predefined name -> colour space
   out : List Shape                      -- what the device has collected so far
 
 /-! ### layout.py -/
@@ -257,10 +265,10 @@ def pop (n : Nat) (st : IState) : List Operand × IState :=
     let k := st.argstack.length - n
     (st.argstack.drop k, { st with argstack := st.argstack.take k })
 
-def csLookup (m : List (String × Nat)) (name : String) : Option Nat := m.lookup name
+def csLookup (m : List (String × CSpace)) (name : String) : Option CSpace := m.lookup name
 
 /-- `self.csmap[csid] = colorspace` on an ordered dict. -/
-def csInsert (m : List (String × Nat)) (name : String) (n : Nat) : List (String × Nat) :=
+def csInsert (m : List (String × CSpace)) (name : String) (n : CSpace) : List (String × CSpace) :=
   if (m.lookup name).isSome then m.map (fun e => if e.1 == name then (name, n) else e) else m ++ [(name, n)]
 
 def pushSeg (st : IState) (s : PSeg) : IState := { st with curpath := st.curpath ++ [s] }
@@ -290,10 +298,25 @@ def setColour (st : IState) (stroking : Bool) (xs : List Rat) : IState :=
 def setSpace (st : IState) (stroking : Bool) (n : Nat) : IState :=
   if stroking then { st with gs := { st.gs with scs := n } } else { st with gs := { st.gs with ncs := n } }
 
+/-- `PDFPageInterpreter._initial_color` (ISO 32000-1 Table 74, operator CS). -/
+def initialColour (cs : CSpace) : Option Colour :=
+  if cs.name == "Pattern" || cs.n < 1 then none
+  else if cs.name == "DeviceCMYK" then some (.comps [0, 0, 0, 1])
+  else
+    let v : Rat := if cs.name == "Separation" || cs.name == "DeviceN" then 1 else 0
+    some (.comps (List.replicate cs.n v))
+
+def setColourOpt (st : IState) (stroking : Bool) (c : Option Colour) : IState :=
+  if stroking then { st with gs := { st.gs with scolor := c } } else { st with gs := { st.gs with ncolor := c } }
+
+/-- `do_cs` / `do_CS` on a known colour space: select it and its initial colour. -/
+def doSelectSpace (st : IState) (stroking : Bool) (cs : CSpace) : IState :=
+  setColourOpt (setSpace st stroking cs.n) stroking (initialColour cs)
+
 /-- `do_g/G/rg/RG/k/K`: all operands must convert, then colour and colour space are set. -/
 def doDeviceColour (st : IState) (stroking : Bool) (space : String) (args : List Operand) : IState :=
   match allNums args with
-  | some xs => setSpace (setColour st stroking xs) stroking ((csLookup st.csmap space).getD 0)
+  | some xs => setSpace (setColour st stroking xs) stroking (((csLookup st.csmap space).map (·.n)).getD 0)
   | none => st
 
 /-- `do_SCN` / `do_scn` (and `SC` / `sc`, which call them). -/
@@ -360,12 +383,12 @@ def call (k : OpK) (args : List Operand) (st : IState) : Except Err IState :=
   | .K => .ok (doDeviceColour st true "DeviceCMYK" args)
   | .cs => match args with
     | [.name s] => match csLookup st.csmap s with
-      | some n => .ok (setSpace st false n)
+      | some cs => .ok (doSelectSpace st false cs)
       | none => .ok st
     | _ => .ok st
   | .CS => match args with
     | [.name s] => match csLookup st.csmap s with
-      | some n => .ok (setSpace st true n)
+      | some cs => .ok (doSelectSpace st true cs)
       | none => .ok st
     | _ => .ok st
   | .sc | .scn => doSetColourN st false
@@ -408,20 +431,20 @@ inductive CsSpec where
 deriving DecidableEq, Repr
 
 /-- `init_resources`: `PREDEFINED_COLORSPACE.copy()` updated with the resource colour spaces. -/
-def initCsmap (res : List (String × CsSpec)) : List (String × Nat) :=
+def initCsmap (res : List (String × CsSpec)) : List (String × CSpace) :=
   res.foldl (fun m (e : String × CsSpec) =>
     match e.2 with
-    | .icc n => csInsert m e.1 n
-    | .devn n => csInsert m e.1 n
+    | .icc n => csInsert m e.1 ⟨"ICCBased", n⟩
+    | .devn n => csInsert m e.1 ⟨"DeviceN", n⟩
     | .named base =>
       match PREDEFINED_COLORSPACE.lookup base with
-      | some n => csInsert m e.1 n
-      | none => m) PREDEFINED_COLORSPACE
+      | some n => csInsert m e.1 ⟨base, n⟩
+      | none => m) (PREDEFINED_COLORSPACE.map (fun e => (e.1, (⟨e.1, e.2⟩ : CSpace))))
 
 /-- `init_state` after `init_resources`. -/
 def initState (ctm : Matrix) (res : List (String × CsSpec)) : IState :=
   let csmap := initCsmap res
-  let n0 := match csmap with | (_, n) :: _ => n | [] => 0
+  let n0 := match csmap with | (_, cs) :: _ => cs.n | [] => 0
   { ctm := ctm,
     gs := { linewidth := 0, dash := none, scolor := none, ncolor := none, scs := n0, ncs := n0 },
     gstack := [], curpath := [], argstack := [], csmap := csmap, out := [] }
